@@ -2,6 +2,7 @@
 import itertools
 
 PROP = "C09"
+SUBCHECKS = ["C09L"]   # size bounds: |encode| <= 24|tgt| + 23, pack and part-metadata bounds (props/C09L.v)
 AREAS = ["lz"]
 THEOREMS = ["lz_roundtrip", "lz_empty_iff", "lz_no_separator", "lz_small_mml_panics", "find_best_match_lp_sound",
             "lz_roundtrip_any_index", "read_int_append_int", "sym_ok_range"]
